@@ -35,7 +35,7 @@ def rule(tier):
 
 def floors(tier):
     return {"evaluations": 550 if tier == "quick" else 8000, "distinct": 550 if tier == "quick" else 6000,
-            "counters": {"open_views_judged": 900, "reloaded_views_judged": 600, "rectangles_merged": 1200, "list_arguments": 100, "tables_added_beside_merged": 300, "source_documents_with_added_merges": 15,
+            "counters": {"open_views_judged": 900, "reloaded_views_judged": 600, "rectangles_merged": 1200, "list_arguments": 100, "tables_added_beside_merged": 300, "source_documents_with_added_merges": 15, "regions_beyond_255_rows_or_columns": 6,
                          "structural_before": 50, "structural_after": 50, "structural_inside": 30, "multi_tile_tables": 5, "placeholders_checked": 3000}}
 
 
@@ -57,6 +57,10 @@ def plan(tier, seed):
     for i in range(kk):
         specs.append({"part": "random", "n": n // kk, "stream": i, "tier": tier, "seed": seed})
     specs.append({"part": "sources", "n": 24 if tier == "quick" else 400, "tier": tier, "seed": seed})
+    # regions wider than 255 columns / taller than 255 rows (their sizes need the second byte of the stored field)
+    for shape, rects in (([3, 300], [[1, 2, 2, 261]]), ([2, 300], [[0, 0, 1, 299]]), ([3, 280], [[0, 10, 0, 270], [1, 0, 2, 256]]), ([300, 3], [[2, 1, 290, 2]]),
+                         ([520, 2], [[1, 0, 517, 1]]), ([2, 258], [[0, 1, 1, 256]])):
+        specs.append({"part": "large", "shape": shape, "rects": rects, "tier": tier, "seed": seed})
     return specs
 
 
@@ -557,12 +561,22 @@ def run_sources(spec, rec):
             rec.sample({"source_document": case})
 
 
+def run_large(spec, rec):
+    R, C = spec["shape"]
+    rects = [tuple(x) for x in spec["rects"]]
+    case = {"part": "simple", "shape": [R, C], "rects": [list(x) for x in rects], "as_list": len(rects) > 1}
+    simple_case(R, C, rects, len(rects) > 1, rec, case)
+    rec.count("regions_beyond_255_rows_or_columns", len(rects))
+    rec.case(("large", R, C, tuple(rects)), nontrivial=True)
+    rec.sample({"large_region": case})
+
+
 def run_shard(spec, rec):
     if "cases" in spec:
         for c in spec["cases"]:
             replay(c, rec)
         return
-    {"exh1": run_exh1, "exh2": run_exh2, "random": run_random, "sources": run_sources}[spec["part"]](spec, rec)
+    {"exh1": run_exh1, "exh2": run_exh2, "random": run_random, "sources": run_sources, "large": run_large}[spec["part"]](spec, rec)
 
 
 def replay(case, rec):
